@@ -264,6 +264,9 @@ func Judge(e *rt.Entry, sc *prog.Scenario, x *rt.Exec) []Viol {
 			j.add(uniq("C03"), "%d goroutines in scheduler code while %d functions were held (limit %d, the directive has %d functions): goroutines grow beyond a function of the limit", n, x.HWM.Load(), lim, len(p.AllFns()))
 		}
 	}
+	if n := x.EmitOverlaps.Load(); n > 0 {
+		j.add(uniq("C03", "C19"), "%d scheduler state reports were handed to an emitter while an earlier report was still being delivered to it: reports come from the scheduler's loop, one at a time - a goroutine per report makes the number of goroutines grow with the emitter's latency, not with the limit", n)
+	}
 	if x.BadStates.Load() > 0 {
 		j.add(uniq("C19"), "%d scheduler state reports received through cff.SchedulerEmitter are inconsistent, first: %s", x.BadStates.Load(), x.FirstBadState)
 	}
